@@ -5,84 +5,84 @@
 
 package dns
 
-//@ func packDataA [C01 C08]
+//@ func packDataA [C01 C08 C16]
 //@   requires 0 <= off
 //@   ensures mono: ret1 == nil ==> off <= ret0 && ret0 <= off + 4
 //@   ensures rng: ret1 == nil && off <= len(msg) ==> ret0 <= len(msg)
 //@   writes msg
-//@ func packDataAAAA [C01 C08]
+//@ func packDataAAAA [C01 C08 C16]
 //@   requires 0 <= off
 //@   ensures mono: ret1 == nil ==> off <= ret0 && ret0 <= off + 16
 //@   ensures rng: ret1 == nil && off <= len(msg) ==> ret0 <= len(msg)
 //@   writes msg
-//@ func packTxt [C01 C08]
+//@ func packTxt [C01 C08 C16]
 //@   requires 0 <= offset
 //@   ensures mono: ret1 == nil ==> offset <= ret0
 //@   ensures rng: ret1 == nil && offset <= len(msg) ==> ret0 <= len(msg)
 //@   loop 1 invariant old(offset) <= offset && (old(offset) <= len(msg) ==> offset <= len(msg))
 //@   writes msg
-//@ func packStringTxt [C01 C08]
+//@ func packStringTxt [C01 C08 C16]
 //@   requires 0 <= off
 //@   ensures mono: ret1 == nil ==> off <= ret0
 //@   ensures rng: ret1 == nil && off <= len(msg) ==> ret0 <= len(msg)
 //@   writes msg
-//@ func packOctetString [C01 C08]
+//@ func packOctetString [C01 C08 C16]
 //@   requires 0 <= offset
 //@   ensures mono: ret1 == nil ==> offset <= ret0 && ret0 <= len(msg)
 //@   ensures rng: ret1 == nil && offset <= len(msg) ==> ret0 <= len(msg)
 //@   loop 1 invariant old(offset) <= offset && offset <= len(msg) && 0 <= i
 //@   writes msg
-//@ func packStringOctet [C01 C08]
+//@ func packStringOctet [C01 C08 C16]
 //@   requires 0 <= off
 //@   ensures mono: ret1 == nil ==> off <= ret0
 //@   ensures rng: ret1 == nil && off <= len(msg) ==> ret0 <= len(msg)
 //@   writes msg
-//@ func packStringBase32 [C01 C08]
+//@ func packStringBase32 [C01 C08 C16]
 //@   requires 0 <= off
 //@   ensures mono: ret1 == nil ==> off <= ret0 && ret0 <= len(msg)
 //@   ensures rng: ret1 == nil && off <= len(msg) ==> ret0 <= len(msg)
 //@   writes msg
-//@ func packDataDomainNames [C01 C08]
+//@ func packDataDomainNames [C01 C08 C16]
 //@   requires 0 <= off
 //@   ensures mono: ret1 == nil ==> off <= ret0
 //@   ensures rng: ret1 == nil && off <= len(msg) ==> ret0 <= len(msg)
 //@   loop 1 invariant old(off) <= off && (old(off) <= len(msg) ==> off <= len(msg))
 //@   writes msg
 //@   modifies MS.mapLstringJint MS.mapLstringJuint16
-//@ func packDataNsec [C01 C08]
+//@ func packDataNsec [C01 C08 C16]
 //@   requires 0 <= off
 //@   ensures mono: ret1 == nil ==> off <= ret0
 //@   ensures rng: ret1 == nil && off <= len(msg) ==> ret0 <= len(msg)
 //@   loop * invariant old(off) <= off && off <= len(msg)
 //@   loop 1 invariant rangeindex >= 0 ==> lastlength >= 1 && off + 2 + lastlength <= len(msg)
 //@   writes msg
-//@ func packDataOpt [C01 C08]
+//@ func packDataOpt [C01 C08 C16]
 //@   opt no-safety
 //@   requires 0 <= off
 //@   ensures mono: ret1 == nil ==> off <= ret0
 //@   ensures rng: ret1 == nil && off <= len(msg) ==> ret0 <= len(msg)
 //@   loop 1 invariant old(off) <= off && (old(off) <= len(msg) ==> off <= len(msg))
 //@   writes msg
-//@ func packDataSVCB [C01 C08]
+//@ func packDataSVCB [C01 C08 C16]
 //@   opt no-safety
 //@   requires 0 <= off
 //@   ensures mono: ret1 == nil ==> off <= ret0
 //@   ensures rng: ret1 == nil && off <= len(msg) ==> ret0 <= len(msg)
 //@   loop 1 invariant old(off) <= off && (old(off) <= len(msg) ==> off <= len(msg))
 //@   writes msg
-//@ func packDataApl [C01 C08]
+//@ func packDataApl [C01 C08 C16]
 //@   requires 0 <= off
 //@   ensures mono: ret1 == nil ==> off <= ret0
 //@   ensures rng: ret1 == nil && off <= len(msg) ==> ret0 <= len(msg)
 //@   loop 1 invariant old(off) <= off && (old(off) <= len(msg) ==> off <= len(msg))
 //@   writes msg
-//@ func packDataAplPrefix [C01 C08]
+//@ func packDataAplPrefix [C01 C08 C16]
 //@   opt no-safety
 //@   requires 0 <= off
 //@   ensures mono: ret1 == nil ==> off <= ret0
 //@   ensures rng: ret1 == nil && off <= len(msg) ==> ret0 <= len(msg)
 //@   writes msg
-//@ func packIPSECGateway [C01 C08]
+//@ func packIPSECGateway [C01 C08 C16]
 //@   requires 0 <= off
 //@   ensures mono: ret1 == nil ==> off <= ret0
 //@   ensures rng: ret1 == nil && off <= len(msg) ==> ret0 <= len(msg)
@@ -90,28 +90,28 @@ package dns
 //@   modifies MS.mapLstringJint MS.mapLstringJuint16
 
 // message framing: header, question, resource record
-//@ func (*Header).pack [C01 C08]
+//@ func (*Header).pack [C01 C08 C16]
 //@   requires 0 <= off
 //@   ensures ok: ret1 == nil ==> ret0 == off + 12 && ret0 <= len(msg)
 //@   writes msg
-//@ func (*Question).pack [C01 C08]
+//@ func (*Question).pack [C01 C08 C16]
 //@   requires 0 <= off
 //@   ensures mono: ret1 == nil ==> off <= ret0
 //@   ensures rng: ret1 == nil && off <= len(msg) ==> ret0 <= len(msg)
 //@   writes msg
 //@   modifies MS.mapLstringJint MS.mapLstringJuint16
-//@ func (RR_Header).packHeader [C01 C08]
+//@ func (RR_Header).packHeader [C01 C08 C16]
 //@   requires 0 <= off
 //@   ensures mono: ret1 == nil ==> off <= ret0 && (off != len(msg) ==> off + 10 <= ret0 && ret0 <= len(msg))
 //@   ensures root: ret1 == nil && off != len(msg) && isdot(hdr.Name) ==> ret0 == off + 11
 //@   ensures rng: ret1 == nil && off <= len(msg) ==> ret0 <= len(msg)
 //@   writes msg
 //@   modifies MS.mapLstringJint MS.mapLstringJuint16
-//@ func packRR [C01 C08]
+//@ func packRR [C01 C08 C16]
 //@   requires 0 <= off
 //@   ensures mono: err == nil ==> off <= headerEnd && headerEnd <= off1 && off1 <= len(msg)
 //@   ensures root: err == nil && off != len(msg) && isdot(hdr(rr).Name) ==> headerEnd == off + 11
-//@ func PackRR [C01 C08]
+//@ func PackRR [C01 C08 C16]
 //@   requires 0 <= off
 //@   ensures mono: err == nil ==> off <= off1 && off1 <= len(msg)
 //@   ensures root: err == nil && off != len(msg) && isdot(hdr(rr).Name) ==> off + 11 <= off1
@@ -130,6 +130,7 @@ package dns
 //@   assert at "dh.Qdcount = uint16(len(dns.Question))" hdr8: 0 <= dns.Opcode && dns.Opcode <= 15 ==> dh.Bits == dns.Opcode * 2048 + dns.Rcode % 16 + (dns.Response ? 32768 : 0) + (dns.Authoritative ? 1024 : 0) + (dns.Truncated ? 512 : 0) + (dns.RecursionDesired ? 256 : 0) + (dns.RecursionAvailable ? 128 : 0) + (dns.Zero ? 64 : 0) + (dns.AuthenticatedData ? 32 : 0) + (dns.CheckingDisabled ? 16 : 0) [C01]
 //@   assert at "if dns.Response {" rcodelo: dh.Bits % 16 == dns.Rcode % 16 [C01]
 //@   assert at "dh.Qdcount = uint16(len(dns.Question))" hdrid: dh.Id == dns.Id [C01]
+//@   assert at "off := 0" slack: len(msg) >= uncompressedLen + 1 [C08]
 //@   ensures hdr12: ret1 == nil ==> len(ret0) >= 12
 //@   ensures within: ret1 == nil && ref(ret0) == ref(buf) ==> len(ret0) <= len(buf)
 //@   loop * invariant 12 <= off && off <= len(msg)
